@@ -526,8 +526,8 @@ theorem pollAll_mem (res : Nat → WaitRes) (l : List Nat) (c st : Nat) :
 theorem pcnt_cons (a st id : Nat) (p : List (Nat × Nat)) :
     pcnt ((a, st) :: p) id = (if a = id then 1 else 0) + pcnt p id := by
   by_cases h : a = id
-  · simp [pcnt, List.filter_cons, h]; omega
-  · simp [pcnt, List.filter_cons, h]
+  · simp [pcnt, h]; omega
+  · simp [pcnt, h]
 
 theorem pcnt_notin (res : Nat → WaitRes) (l : List Nat) (id : Nat) (h : id ∉ l) :
     pcnt (pollAll res l).2 id = 0 := by
